@@ -8,6 +8,8 @@ the prefix of the output).
 """
 from fractions import Fraction
 
+import itertools
+
 import numpy as np
 
 from ..target import eqsig, displacements, im
@@ -17,6 +19,8 @@ from . import c04
 
 SIGMA = (-2, -1, 0, 1, 2)
 DTS = (0.005, 0.01, 0.5, 1.0)
+ODD_DTS = (1.0 / 1024, 1.0 / 3, 1e-9, 0.012345678912345, 2.5e-5, 7.0)   # not multiples of 1e-8 / far from the usual sampling steps
+PEAK_NAMES = ('pga', 'pgv', 'pgd')
 
 
 def build(tier, seed):
@@ -29,7 +33,7 @@ def build(tier, seed):
                 'generator}; non-trivial = word not identically zero' % (L, list(DTS)),
         'bounds': {'alphabet': SIGMA, 'max_len': L, 'dt': DTS, 'trap': [True, False]},
         'required_classes': ['trap', 'rect', 'const-acc', 'linear-acc', 'neg-peak-dominant', 'pos-peak-dominant',
-                             'prefix-edge', 'int-input', 'object-reused', 'dtype-variant', 'extreme-scale', 'object-after-edit', 'object-after-query', 'narrow-int-record'],
+                             'prefix-edge', 'int-input', 'object-reused', 'dtype-variant', 'extreme-scale', 'object-after-edit', 'object-after-query', 'narrow-int-record', 'peak-read-order', 'odd-dt'],
         'assumptions': ['sample values outside {-2..2} and lengths above the bound are not examined',
                         'dt only on the menu', 'reference: exact rational cumulative sums (fractions.Fraction)'],
     }
@@ -212,6 +216,35 @@ def run_case(w):
             ok, out = r.call('peaks', s2, peaks)
             if ok:
                 r.expect_close('peaks.object', s2, out, np.array(want) * abs(scale), rtol=1e-9, atol=1e-300)
+            # every order in which the three lazy peaks can be read on a fresh object (each one must integrate / search for itself),
+            # and each derived series / peak as the FIRST read after the record was replaced
+            if scale == 1.0 and n <= 5 and dt == DTS[1]:
+                for order in itertools.permutations((0, 1, 2)):
+                    s3 = dict(sub, read_order=[PEAK_NAMES[k] for k in order])
+
+                    def ordered():
+                        s = eqsig.AccSignal(np.array(w, dtype=float), dt)
+                        got = {}
+                        for k in order:
+                            got[k] = getattr(s, PEAK_NAMES[k])
+                        return got[0], got[1], got[2]
+                    ok, out = r.call('peaks', s3, ordered)
+                    if ok:
+                        r.cls('peak-read-order')
+                        r.expect_close('peaks.object-read-order', s3, out, np.array(want), rtol=1e-9, atol=1e-300)
+                w_other = [x + 1 for x in w] + [1]
+                for first_read in ('pgv', 'pgd', 'velocity', 'displacement'):
+                    s3 = dict(sub, first_read_after_reset=first_read, held_before=w_other)
+
+                    def first_after_reset():
+                        s = eqsig.AccSignal(np.array(w_other, dtype=float), dt)
+                        s.pga, s.pgv, s.pgd
+                        s.reset_values(np.array(w, dtype=float))
+                        return getattr(s, first_read)
+                    ok, out = r.call('peaks', s3, first_after_reset)
+                    if ok:
+                        wanted = {'pgv': want[1], 'pgd': want[2], 'velocity': fl(vref), 'displacement': fl(dref)}[first_read]
+                        r.expect_close('peaks.object-first-read-after-reset_values', s3, out, wanted, rtol=1e-9, atol=1e-13 * amax * dt * n)
             # the same object after its record has been replaced: read one peak, replace the values by scale*w, read all peaks
             if scale != 1.0:
                 for first_read in ('pga', 'pgv', 'pgd'):
@@ -234,6 +267,33 @@ def run_case(w):
                 if ok:
                     r.expect_close('peaks.calc_peak', dict(s2, series=nm), out, float(np.max(np.abs(arr))), rtol=1e-12,
                                    atol=1e-300)
+    # ---- time steps that are not round decimal numbers (the step is used as given: no rounding, at array and at object level)
+    if n <= 4 and nz:
+        for dtx in ODD_DTS:
+            for trap in (True, False):
+                sub = {'w': w, 'dt': dtx, 'trap': trap}
+                vref, dref = ref_series(w, dtx, trap)
+                vr, dr = fl(vref), fl(dref)
+                r.cls('odd-dt')
+
+                def obj_dtx():
+                    s = eqsig.AccSignal(np.array(w, dtype=float), dtx)
+                    s.generate_displacement_and_velocity_series(trap=trap)
+                    return s.velocity, s.displacement, s.dt
+                for ent, fn in (('array-f64', lambda: displacements.calc_velo_and_disp_from_accel_arr(np.array(w, dtype=float), dtx, trap=trap) + (dtx,)),
+                                ('object-generate', obj_dtx)):
+                    s2 = dict(sub, entry=ent)
+                    ok, out = r.call('series', s2, fn)
+                    if not ok:
+                        continue
+                    try:
+                        v, d, dt_held = out
+                    except Exception:
+                        r.fail('series', s2, 'malformed result', observed=out)
+                        continue
+                    r.expect_close('series.velocity', s2, v, vr, rtol=1e-12, atol=1e-300)
+                    r.expect_close('series.displacement', s2, d, dr, rtol=1e-12, atol=1e-300)
+                    r.expect('series.dt-kept', s2, dt_held == dtx, 'the object reports a different time step than it was given', observed=dt_held, expected=dtx)
     # ---- containers / dtypes of the record for the peaks (unsigned: a negated minimum wraps around) and extreme scales
     shifted = [int(x) + 2 for x in w]                      # {0..4}
     for nm, arr in (('uint8', np.array(shifted, dtype=np.uint8)), ('uint16', np.array(shifted, dtype=np.uint16)), ('int8', np.array(w, dtype=np.int8)),
